@@ -3,6 +3,7 @@ package c12
 import (
 	"context"
 	"fmt"
+	"os"
 	"sort"
 	"strings"
 	"sync"
@@ -44,6 +45,9 @@ type Case struct {
 	Initial  int       `json:"initial_loads"`
 	Clients  [][]Op    `json:"clients"`
 	Schedule []int     `json:"schedule"` // (client, run length) pairs flattened
+	// Sequential drain: after the schedule, the remaining clients run to completion one after the other (client of
+	// the last run first) instead of round-robin; used by the exhaustive <=2-preemption enumeration.
+	SeqDrain bool `json:"seq_drain,omitempty"`
 }
 
 func genOp(t *rapid.T) Op {
@@ -436,6 +440,26 @@ func runCase(c Case) *vt.Outcome {
 		}
 		preemptions++
 	}
+	if c.SeqDrain {
+		first := 0
+		if len(c.Schedule) >= 2 {
+			// the client that was preempted first resumes first: A runs i, B runs j, then A to the end, then B
+			first = c.Schedule[0] % nc
+		}
+		for d := 0; d < nc; d++ {
+			ci := (first + d) % nc
+			for !done(ci) {
+				if spin[ci] >= 2 && other(ci) != ci {
+					// busy-waiting on a half-written HEAD of the other client: let that one move once
+					grant(other(ci))
+					continue
+				}
+				if !grant(ci) {
+					break
+				}
+			}
+		}
+	}
 	for ci := 0; !allDone(); ci = (ci + 1) % nc {
 		if !done(ci) {
 			if spin[ci] >= 2 && other(ci) != ci {
@@ -711,6 +735,15 @@ func runCase(c Case) *vt.Outcome {
 		return o
 	}
 	o.Evals = granted
+	lastGrants = granted
+	lastRet = lastRet[:0]
+	for _, cr := range runs {
+		r := 0
+		for _, e := range cr.events {
+			r = e.ret
+		}
+		lastRet = append(lastRet, r)
+	}
 	o.NonTrivial = overlap && preemptions >= 1
 	if overlap {
 		o.Label("overlapping-ops")
@@ -767,6 +800,125 @@ func perform(ctx context.Context, lk *lakeh.Lake, c *Case, e *event, poolIDs map
 	return ksuid.Nil, fmt.Errorf("unknown op %s", op.Kind)
 }
 
+// lastGrants is the number of storage steps granted by the most recent runCase (used by the pair enumeration to
+// size the schedule space; one case runs at a time in a process).
+var lastGrants int
+var lastRet []int
+
+// ---------- exhaustive enumeration of <=2-preemption schedules for contending operation pairs
+
+type PairCase struct {
+	Pair   int  `json:"pair"`
+	File   bool `json:"file_mode"`
+	BFirst bool `json:"b_first"`
+	Shard  int  `json:"shard"`
+	Shards int  `json:"shards"`
+}
+
+var pairs = [][2]Op{
+	{{Kind: "load", Pool: "p", Branch: "main", Batch: 0}, {Kind: "load", Pool: "p", Branch: "main", Batch: 1}},
+	{{Kind: "load", Pool: "p", Branch: "main", Batch: 0}, {Kind: "delete", Pool: "p", Branch: "main", Pick: []int{0}}},
+	{{Kind: "delete", Pool: "p", Branch: "main", Pick: []int{0, 1}}, {Kind: "delete", Pool: "p", Branch: "main", Pick: []int{1}}},
+	{{Kind: "compact", Pool: "p", Branch: "main", Pick: []int{0, 1}}, {Kind: "delete", Pool: "p", Branch: "main", Pick: []int{1}}},
+	{{Kind: "createpool", Pool: "n"}, {Kind: "createpool", Pool: "n"}},
+	{{Kind: "renamepool", Pool: "q", Other: "n"}, {Kind: "droppool", Pool: "q"}},
+	{{Kind: "createbranch", Pool: "p", Branch: "c"}, {Kind: "createbranch", Pool: "p", Branch: "c"}},
+	{{Kind: "addvec", Pool: "p", Branch: "main", Pick: []int{0}}, {Kind: "compact", Pool: "p", Branch: "main", Pick: []int{0, 1}}},
+	{{Kind: "dropbranch", Pool: "p", Branch: "b"}, {Kind: "load", Pool: "p", Branch: "b", Batch: 2}},
+}
+
+func pairBase(pc PairCase) Case {
+	c := Case{File: pc.File, Initial: 2, SeqDrain: true}
+	c.Batches = []gen.Seq{gen.SeqFromZSON(`{k:1,b:0} {k:2,b:0}`), gen.SeqFromZSON(`{k:3,b:1}`), gen.SeqFromZSON(`{k:4,b:2} {k:5,b:2}`)}
+	p := pairs[pc.Pair%len(pairs)]
+	a, b := p[0], p[1]
+	if pc.BFirst {
+		a, b = b, a
+	}
+	c.Clients = [][]Op{{a}, {b}}
+	return c
+}
+
+func runPairs(pc PairCase) *vt.Outcome {
+	o := &vt.Outcome{}
+	base := pairBase(pc)
+	// size of the space: steps of A alone then B alone
+	solo := base
+	solo.Schedule = []int{0, 1 << 20}
+	if r := runCase(solo); r.Fail != nil {
+		return r
+	}
+	ta := lastGrants
+	if len(lastRet) > 0 && lastRet[0] > 0 && lastRet[0] < lastGrants {
+		ta = lastRet[0]
+	}
+	tb := lastGrants - ta
+	if tb < 1 {
+		tb = lastGrants
+	}
+	// a few extra steps on each side: contention (retries) makes operations longer than their solo runs
+	ta, tb = min(ta+12, 300), min(tb+12, 300)
+	n := 0
+	for i := 0; i <= ta; i++ {
+		for j := 1; j <= tb; j++ {
+			n++
+			if n%pc.Shards != pc.Shard {
+				continue
+			}
+			c := base
+			c.Schedule = []int{0, i, 1, j}
+			if i == 0 {
+				c.Schedule = []int{1, j, 0, 1 << 20}
+			}
+			r := runCase(c)
+			o.Evals++
+			if r.Fail != nil {
+				r.Fail.Msg = fmt.Sprintf("pair %d (%s || %s), A runs %d steps, B runs %d steps, then A to the end, then B: %s", pc.Pair, base.Clients[0][0].String(), base.Clients[1][0].String(), i, j, r.Fail.Msg)
+				o.Fail = r.Fail
+				return o
+			}
+			o.Known = append(o.Known, r.Known...)
+			if r.NonTrivial {
+				o.Units = append(o.Units, fmt.Sprintf("%d/%v/%v/%d/%d", pc.Pair, pc.File, pc.BFirst, i, j))
+			}
+		}
+	}
+	o.Sample = map[string]any{"case": pc, "a": base.Clients[0][0], "b": base.Clients[1][0], "schedules_in_shard": o.Evals}
+	return o
+}
+
+var pairCounter int
+
+var pairProp = &vt.Prop[PairCase]{
+	Name: "TestPairsExhaustive",
+	Rule: "EXHAUSTIVE over schedules with at most 2 preemptions for 9 contending operation pairs (load||load, load||delete, delete||delete(overlapping ids), compact||delete, createpool||createpool(same name), renamepool||droppool, createbranch||createbranch(same name), addvec||compact, dropbranch||load) x both start orders x both storage modes: A runs i storage steps, B runs j steps, A runs to completion, B runs to completion, for every i and j; each schedule is judged by the same oracles as TestLinearizable. " +
+		"A schedule is non-trivial when the two acknowledged operations overlapped in scheduler time; distinct = (pair, mode, order, i, j).",
+	Gen: func(t *rapid.T) PairCase {
+		shard, shards := 0, 1
+		fmt.Sscan(os.Getenv("VERIF_SHARD"), &shard)
+		fmt.Sscan(os.Getenv("VERIF_SHARDS"), &shards)
+		if shards < 1 {
+			shards = 1
+		}
+		n := pairCounter
+		pairCounter++
+		pc := PairCase{Pair: n % len(pairs), File: (n/len(pairs))%2 == 1, BFirst: (n/(2*len(pairs)))%2 == 1, Shard: shard, Shards: shards}
+		if !vt.Thorough() {
+			// quick tier: a 1/8 slice of each space, chosen by rapid
+			pc.Shards = shards * 8
+			pc.Shard = shard*8 + rapid.IntRange(0, 7).Draw(t, "slice")
+		}
+		return pc
+	},
+	Run: runPairs,
+}
+
+func TestPairsExhaustive(t *testing.T) {
+	vt.SetExtra("TestPairsExhaustive", "exhaustive", vt.Thorough())
+	vt.SetExtra("TestPairsExhaustive", "exhaustive_space", "thorough: all (i,j) two-preemption schedules of 9 pairs x 2 orders x 2 storage modes (36 checks per shard cover every combination); quick: a 1/8 slice of 9 combinations per shard")
+	pairProp.Check(t)
+}
+
 var prop = &vt.Prop[Case]{
 	Name: "TestLinearizable",
 	Rule: "case = storage mode (atomic / file-like) x initial lake (pools p,q; p with 2..4 loaded objects and a branch b) x 2..3 clients, each a separate lake handle issuing 1..2 operations from {load, delete ids, compact ids, add vectors, create/rename/drop pool, create/drop branch} (object ids refer to the initial objects, so clients contend) x schedule of (client, run length) pairs: every storage step of every client is granted by the scheduler (spin rule: a client re-reading an unparseable HEAD is descheduled). " +
@@ -776,7 +928,7 @@ var prop = &vt.Prop[Case]{
 	Run: runCase,
 }
 
-func init() { prop.Register() }
+func init() { prop.Register(); pairProp.Register() }
 
 func TestLinearizable(t *testing.T) { prop.Check(t) }
 func TestReplay(t *testing.T)       { vt.TestReplay(t) }
